@@ -418,7 +418,10 @@ func CheckC12(run *evid.Run) {
 				}
 				single++
 				pool = append(pool, hb)
-				jobs = append(jobs, func() { tryDecode(run, hb, w, hon, "single-edit"); run.NonTrivialIf(hb.Outcome != "ipld-error", "1/"+hb.Edits) })
+				jobs = append(jobs, func() {
+					tryDecode(run, hb, w, hon, "single-edit")
+					run.NonTrivialIf(hb.Outcome != "ipld-error", "1/"+hb.Edits)
+				})
 			}
 		}
 	}
@@ -432,34 +435,40 @@ func CheckC12(run *evid.Run) {
 		for _, tn := range []string{"v2", "manifest"} {
 			hb := &hostile{Template: tn, Edits: "root=" + name, raw: raw, c: c}
 			pool = append(pool, hb)
-			jobs = append(jobs, func() { tryDecode(run, hb, w, hon, "root"); run.NonTrivialIf(hb.Outcome != "ipld-error", "root/"+hb.Edits) })
+			jobs = append(jobs, func() {
+				tryDecode(run, hb, w, hon, "root")
+				run.NonTrivialIf(hb.Outcome != "ipld-error", "root/"+hb.Edits)
+			})
 		}
 	}
 	for name, js := range map[string]string{"empty": "{}", "null": "null", "array": "[]", "string": `"x"`, "notjson": "{", "clock-string": `{"clock":"x"}`, "next-int": `{"next":[1],"clock":{"id":"","time":0}}`, "hash-bad": `{"hash":"zz","clock":{"id":"","time":0}}`} {
 		raw, c := pbBlock([]byte(js))
 		hb := &hostile{Template: "v0", Edits: "json=" + name, raw: raw, c: c}
 		pool = append(pool, hb)
-		jobs = append(jobs, func() { tryDecode(run, hb, w, hon, "root"); run.NonTrivialIf(hb.Outcome != "ipld-error", "root/"+hb.Edits) })
+		jobs = append(jobs, func() {
+			tryDecode(run, hb, w, hon, "root")
+			run.NonTrivialIf(hb.Outcome != "ipld-error", "root/"+hb.Edits)
+		})
 	}
 	// hostile plaintexts INSIDE authentic encrypted links (an insider holding the link key): the decrypted CBOR is untrusted too
 	{
 		key := hx.LinkKey(1)
 		plains := map[string][]byte{
-			"next=[link(empty bytes)]":   {0xa2, 0x64, 'n', 'e', 'x', 't', 0x81, 0xd8, 0x2a, 0x40, 0x64, 'r', 'e', 'f', 's', 0x80},
-			"refs=[link(empty bytes)]":   {0xa2, 0x64, 'n', 'e', 'x', 't', 0x80, 0x64, 'r', 'e', 'f', 's', 0x81, 0xd8, 0x2a, 0x40},
-			"next=[link(00)]":            {0xa1, 0x64, 'n', 'e', 'x', 't', 0x81, 0xd8, 0x2a, 0x41, 0x00},
-			"next=[link(01 02)]":         {0xa1, 0x64, 'n', 'e', 'x', 't', 0x81, 0xd8, 0x2a, 0x42, 0x01, 0x02},
-			"next=[link(text)]":          {0xa1, 0x64, 'n', 'e', 'x', 't', 0x81, 0xd8, 0x2a, 0x61, 'x'},
-			"next=5":                     {0xa1, 0x64, 'n', 'e', 'x', 't', 0x05},
-			"next=[1,2]":                 {0xa1, 0x64, 'n', 'e', 'x', 't', 0x82, 0x01, 0x02},
-			"next=null":                  {0xa1, 0x64, 'n', 'e', 'x', 't', 0xf6},
-			"empty map":                  {0xa0},
-			"text":                       {0x61, 'x'},
-			"array":                      {0x80},
-			"truncated":                  {0xa2, 0x64, 'n', 'e'},
-			"empty":                      {},
-			"clock=null,next=[]":         {0xa2, 0x65, 'c', 'l', 'o', 'c', 'k', 0xf6, 0x64, 'n', 'e', 'x', 't', 0x80},
-			"identity={},next=[]":        {0xa2, 0x68, 'i', 'd', 'e', 'n', 't', 'i', 't', 'y', 0xa0, 0x64, 'n', 'e', 'x', 't', 0x80},
+			"next=[link(empty bytes)]": {0xa2, 0x64, 'n', 'e', 'x', 't', 0x81, 0xd8, 0x2a, 0x40, 0x64, 'r', 'e', 'f', 's', 0x80},
+			"refs=[link(empty bytes)]": {0xa2, 0x64, 'n', 'e', 'x', 't', 0x80, 0x64, 'r', 'e', 'f', 's', 0x81, 0xd8, 0x2a, 0x40},
+			"next=[link(00)]":          {0xa1, 0x64, 'n', 'e', 'x', 't', 0x81, 0xd8, 0x2a, 0x41, 0x00},
+			"next=[link(01 02)]":       {0xa1, 0x64, 'n', 'e', 'x', 't', 0x81, 0xd8, 0x2a, 0x42, 0x01, 0x02},
+			"next=[link(text)]":        {0xa1, 0x64, 'n', 'e', 'x', 't', 0x81, 0xd8, 0x2a, 0x61, 'x'},
+			"next=5":                   {0xa1, 0x64, 'n', 'e', 'x', 't', 0x05},
+			"next=[1,2]":               {0xa1, 0x64, 'n', 'e', 'x', 't', 0x82, 0x01, 0x02},
+			"next=null":                {0xa1, 0x64, 'n', 'e', 'x', 't', 0xf6},
+			"empty map":                {0xa0},
+			"text":                     {0x61, 'x'},
+			"array":                    {0x80},
+			"truncated":                {0xa2, 0x64, 'n', 'e'},
+			"empty":                    {},
+			"clock=null,next=[]":       {0xa2, 0x65, 'c', 'l', 'o', 'c', 'k', 0xf6, 0x64, 'n', 'e', 'x', 't', 0x80},
+			"identity={},next=[]":      {0xa2, 0x68, 'i', 'd', 'e', 'n', 't', 'i', 't', 'y', 0xa0, 0x64, 'n', 'e', 'x', 't', 0x80},
 		}
 		for name, pt := range plains {
 			for _, nlen := range []int{24, 23, 25, 0} {
@@ -480,7 +489,10 @@ func CheckC12(run *evid.Run) {
 					continue
 				}
 				pool = append(pool, hb)
-				jobs = append(jobs, func() { tryDecode(run, hb, w, hon, "sealed-plaintext"); run.NonTrivialIf(hb.Outcome != "ipld-error", "s/"+hb.Edits) })
+				jobs = append(jobs, func() {
+					tryDecode(run, hb, w, hon, "sealed-plaintext")
+					run.NonTrivialIf(hb.Outcome != "ipld-error", "s/"+hb.Edits)
+				})
 			}
 		}
 	}
@@ -509,7 +521,10 @@ func CheckC12(run *evid.Run) {
 		if k%40 == 0 {
 			pool = append(pool, hb)
 		}
-		jobs = append(jobs, func() { tryDecode(run, hb, w, hon, "multi-edit"); run.NonTrivialIf(hb.Outcome != "ipld-error", "m/"+hb.Edits) })
+		jobs = append(jobs, func() {
+			tryDecode(run, hb, w, hon, "multi-edit")
+			run.NonTrivialIf(hb.Outcome != "ipld-error", "m/"+hb.Edits)
+		})
 	}
 	// byte level: truncations at every offset, bit flips, random bytes
 	for _, src := range []struct {
